@@ -18,10 +18,6 @@ Ascii1 == {" ", "!", "#", "$", "%", "&", "'", "(", ")", "*", "+", ",", "-", ".",
 LongName(k) == Len(k) > 1 \/ k[1] \notin Ascii1
 DashName(k) == IF k = <<DASH>> THEN k ELSE IF LongName(k) THEN <<DASH, DASH>> \o k ELSE <<DASH>> \o k
 
-RECURSIVE JoinWith(_, _)
-JoinWith(ss, sep) ==
-  IF ss = <<>> THEN <<>> ELSE IF Len(ss) = 1 THEN ss[1] ELSE ss[1] \o sep \o JoinWith(Tail(ss), sep)
-
 AllNames(cfg, o) == <<Opt(cfg, o).name>> \o Opt(cfg, o).aliases
 
 HelpSyn(cfg, o) ==
